@@ -40,7 +40,7 @@ ID = "C07"
 PROP_FILE = "props/C07.v"
 MODEL_TARGETS = ["theories/MpSync.vo"]
 THEOREMS = ["C07_rigid", "C07_rigid_counters", "C07_noop", "C07_noop_single_rank", "C07_noop_collective_free",
-            "C07_perm", "C07_epoch_blind", "C07_aligned", "C07_reversed_branch_refuted"]
+            "C07_perm", "C07_epoch_blind", "C07_aligned", "C07_chain_branch_instance"]
 ALLOWED_AXIOMS = []
 MANIFEST = {
     "text": "Proof. Coq theorems over an executable model (MpSync.v) of the mp_sync_tight_v1 stage: gathering of all "
@@ -54,14 +54,15 @@ MANIFEST = {
             "(C07_rigid_counters: with ts_dev = counters/f this is TSa/f + off); C07_noop (+ single-rank and "
             "collective-free corollaries) - fewer than two pids with collectives or no group of pid 0: only the "
             "re-sort; C07_perm - the drain returns a permutation of the buffered events, sorted by ts; "
-            "C07_epoch_blind - in the branch all chain-allreduce traces take (rank 0's events of the first group "
-            "carry 'AllReduce_all_reduce' in their names) adding an arbitrary constant c(pid) to all device times "
+            "C07_epoch_blind - in BOTH branches of the calibration (P_map identity when rank 0's events of the first "
+            "group carry 'AllReduce_all_reduce' in their names, reversed otherwise) and for any number of ranks, adding "
+            "an arbitrary constant c(pid) to all device times "
             "of every pid leaves uid, ts, dur and ts_all of every drained event unchanged (pointwise Qeq, same "
             "order); C07_aligned - after calibration no last receive (TS2) of rank 1 ends before the last send (TS5) "
             "of rank 0 in any used group, with equality for the reference group, and every further rank ends its last "
-            "receive of the first used group together with rank 1; C07_reversed_branch_refuted - in the other branch "
-            "(rank 0's names without the tag, P_map reversed) a 3-rank witness shows the result does depend on the "
-            "epochs (documentation: outside the property's scenario class). The model is tied to the code on every run by "
+            "receive of the first used group together with rank 1; C07_chain_branch_instance - the three-rank reversed-"
+            "branch input that refuted epoch blindness before the /repo fix 'C07' (reference offset ignored rank 0's "
+            "own shift) now exports the same timeline. The model is tied to the code on every run by "
             "direct drive of MpSyncTightContext (incl. its internal dts_shifts / reference offset) and end to end "
             "through Acelyzer on multi-rank chain-allreduce scenarios, where the stage's input and output streams are "
             "recorded and replayed in the model.",
@@ -89,8 +90,7 @@ TRUSTED = [
 ASSUMPTIONS = [
     "events reaching the stage carry args.ts_dev = [TS1..TS5]/soc_frequency (tighten_hts_by_instr_type, C06) with "
     "wrap-corrected counters (C05)",
-    "epoch blindness is claimed for the chain-allreduce class (rank 0's collective event names contain the group "
-    "name, pids 0..N-1); the reversed branch is refuted for >= 3 ranks (C07_reversed_branch_refuted)",
+    "epoch blindness: device slices have pids 0..N-1 (non-negative; Python list indexing wraps for negative pids)",
     "a FLEX file is one rank; ranks are numbered 0..N-1",
 ]
 
@@ -416,8 +416,8 @@ def oracle_direct(events, out, wf, rerun=True):
                 fail("not_aligned", "receivers end the first group together",
                      [float(gend(q, used[0], 1) + off[q]) for q in range(1, n)], ranks=n, what="receivers", rank=r)
                 return fails
-    # ---- epoch blindness (relational): tree branch, or two ranks
-    if rerun and (tree or n == 2) and all(e["pid"] >= 0 for e in events if has_ts5(e)):
+    # ---- epoch blindness (relational): both branches, any number of ranks
+    if rerun and all(e["pid"] >= 0 for e in events if has_ts5(e)):
         rr = random.Random(zlib.crc32(json.dumps([e["uid"] for e in events]).encode()) + len(events))
         cs = {p: Fraction(rr.choice([1, 7, -3, rr.randrange(-(1 << 24), 1 << 24), rr.randrange(1 << 30, 1 << 34)]),
                           rr.choice([1, 1, 2, 256, GRID])) for p in set(e["pid"] for e in events)}
@@ -911,7 +911,7 @@ def oracle_e2e(sc, runs):
                     fail("e2e_not_aligned", "receivers end the first group together",
                          [float(gend(q, used[0], 1) + goff[q]) for q in range(1, n)], ranks=n, what="receivers", rank=r)
                     return fails
-    if "bumped" in runs and (not active or tree or sc["ranks"] == 2):
+    if "bumped" in runs:
         stb, byb, _ = runs["bumped"]
         v1 = {u: (fr(x[0]["ts"]), fr(x[0]["dur"]), x[0]["pid"]) for u, x in by.items()}
         v2 = {u: (fr(x[0]["ts"]), fr(x[0]["dur"]), x[0]["pid"]) for u, x in byb.items()} if stb == "ok" else stb
